@@ -8,6 +8,7 @@ package symx
 import (
 	"fmt"
 	"sort"
+	"strings"
 	"unsafe"
 
 	"golang.org/x/tools/go/ssa"
@@ -298,4 +299,88 @@ func (m *storeMonitor) report2(fr *frame, msg string) {
 		v.Obs = ex.renderObs(mod)
 	}
 	ex.viol = append(ex.viol, v)
+}
+
+// ---- set-up guard ------------------------------------------------------------
+//
+// A job's set-up function runs once and its body once per path, on the same
+// heap. That is sound only while the body leaves what set-up built alone.
+// After set-up the guard records the memory reachable from the globals of the
+// module under test and of the harness; a store into it during a body (other
+// than inside sync.Once.Do: request-independent lazy initialisation) aborts the
+// job with a "replay divergence", upon which it is started over with set-up
+// repeated on every path.
+type setupGuard struct {
+	regions   []region
+	maps      map[interface{}]bool
+	onceDepth int
+	Stores    int
+}
+
+func newSetupGuard(i *interpreter, module string) *setupGuard {
+	m := newStoreMonitor()
+	m.seen = map[uintptr]bool{}
+	for g, cell := range i.globals {
+		if g.Pkg == nil || g.Pkg.Pkg == nil || !strings.HasPrefix(g.Pkg.Pkg.Path(), module) {
+			continue
+		}
+		file := i.prog.Fset.Position(g.Pos()).Filename
+		if strings.Contains(file, "zz_verif") || strings.HasSuffix(g.Pkg.Pkg.Path(), "/internal/vx") {
+			// a harness global: the variable itself is the harness's to reset, what it points to is guarded
+			if cell != nil {
+				m.walk(*cell)
+			}
+			continue
+		}
+		m.walk(cell)
+	}
+	sort.Slice(m.regions, func(a, b int) bool { return m.regions[a].lo < m.regions[b].lo })
+	return &setupGuard{regions: m.regions, maps: m.maps}
+}
+
+func (g *setupGuard) guarded(p *value) bool {
+	a := uintptr(unsafe.Pointer(p))
+	k := sort.Search(len(g.regions), func(k int) bool { return g.regions[k].lo > a })
+	for j := k - 1; j >= 0 && j >= k-4; j-- {
+		if g.regions[j].lo <= a && a < g.regions[j].hi {
+			return true
+		}
+	}
+	return false
+}
+
+func (g *setupGuard) hit(fr *frame, what string) {
+	if g.onceDepth > 0 {
+		return
+	}
+	panic(engineError("replay divergence: the body wrote to memory built by set-up (" + what + " in " + fr.fn.String() + ")"))
+}
+
+func (g *setupGuard) onStore(fr *frame, addr *value) {
+	g.Stores++
+	if g.guarded(addr) {
+		g.hit(fr, "store")
+	}
+}
+
+func (g *setupGuard) onMapUpdate(fr *frame, mp value) {
+	g.Stores++
+	var key interface{}
+	switch x := mp.(type) {
+	case *omap:
+		key = x
+	case *hashmap:
+		key = x
+	}
+	if key != nil && g.maps[key] {
+		g.hit(fr, "map update")
+	}
+}
+
+func (g *setupGuard) onSlice(fr *frame, dst []value, at int, what string) {
+	g.Stores++
+	full := dst[:cap(dst)]
+	if at < len(full) && g.guarded(&full[at]) {
+		g.hit(fr, what)
+	}
 }
